@@ -58,12 +58,12 @@ TOL_LOGPDF = 1e-5
 TOL_NORM = 1e-4
 MAX_REF_TAIL = 2e-5
 FLOORS = {
-    "quick": {"logpdf_points": 6000, "normalisation_checks": 150, "gof_tests": 900, "shape_checks": 1300,
-              "distributions_reached": 24, "wrapper_cases": 7},
-    "thorough": {"logpdf_points": 18000, "normalisation_checks": 450, "gof_tests": 2700, "shape_checks": 3900,
-                 "distributions_reached": 24, "wrapper_cases": 7},
+    "quick": {"logpdf_points": 5000, "normalisation_checks": 200, "gof_tests": 800, "shape_checks": 650,
+              "logpdf_vmap_checks": 50, "distributions_reached": 24, "wrapper_cases": 7, "doc_probes": 1},
+    "thorough": {"logpdf_points": 15000, "normalisation_checks": 600, "gof_tests": 2400, "shape_checks": 1950,
+                 "logpdf_vmap_checks": 150, "distributions_reached": 24, "wrapper_cases": 7, "doc_probes": 1},
 }
-TIMEOUT_S = {"quick": 1200, "thorough": 3600}
+TIMEOUT_S = {"quick": 1800, "thorough": 7200}
 
 # argument forms: (positional names, keyword names)
 FORMS = {
@@ -364,9 +364,15 @@ def worker_setup(ctx):
 
 
 def run_case(case, ctx):
-    if case["kind"] == "docs":
-        return _run_docs(ctx)
-    return _run_dist(case, ctx)
+    import time
+
+    t0 = time.process_time()
+    try:
+        if case["kind"] == "docs":
+            return _run_docs(ctx)
+        return _run_dist(case, ctx)
+    finally:
+        ctx.count("cpu_seconds_cases", time.process_time() - t0)
 
 
 # ---------------------------------------------------------------------------
@@ -839,7 +845,7 @@ def _run_dist(case, ctx):
             ctx.count("distributions_reached")
     elif case["block"] == 0 and (pos, kw) == tuple(WRAPPERS[obj][1][0]):
         ctx.count("wrapper_cases")
-    base_ok = {}
+    base_ok, lp_ok = {}, {}
     for i, pt in enumerate(case["points"]):
         jp = _jparams(pt, names)
         a, k = _refargs(pt, pos, kw)
@@ -847,7 +853,8 @@ def _run_dist(case, ctx):
         assert bshape == (), bshape
         kk = jax.random.fold_in(k0, i)
         # ---- (1) log density on the support grid, (2) normalisation
-        if _monitor_logpdf(case, ctx, pt, jp):
+        lp_ok[i] = _monitor_logpdf(case, ctx, pt, jp)
+        if lp_ok[i]:
             _monitor_norm(case, ctx, pt, jp)
         # ---- (3) sampler
         f = _fn(case, "vmap-keys")
@@ -863,6 +870,8 @@ def _run_dist(case, ctx):
         out = ctx.call(lambda: np.asarray(f(jax.random.fold_in(kk, 3), *jp)))
         _check_sample(case, ctx, "sample_shape", out, (n,) + ev, [(None, pt)], base_ok[i],
                       f"seed(lambda *p: d.sample(..., sample_shape=({n},)))(key, *params)")
+        if not (case["primary"] or not names):
+            continue  # axis_size-only vmap shares the batching rule exercised by the lane configuration below
         f = _fn(case, "modular_vmap-axis_size", n)
         out = ctx.call(lambda: np.asarray(f(jax.random.fold_in(kk, 4), *jp)))
         _check_sample(case, ctx, "modular_vmap-axis_size", out, (n,) + ev, [(None, pt)], base_ok[i],
@@ -887,7 +896,8 @@ def _run_dist(case, ctx):
         vv = jnp.asarray(np.stack(vals).astype(_val_dtype(ref)))
         f = _fn(case, "logpdf-modular_vmap")
         got = ctx.call(lambda: np.asarray(f(vv, *lanes_p), dtype=np.float64))
-        head = f"logpdf|modular_vmap|{_formkind(kw)}"
+        head = (f"logpdf|modular_vmap|{_formkind(kw)}" if all(lp_ok.get(i, False) for i in g)
+                else f"{obj}|logpdf-modular_vmap|{fk}")
         if _is_raised(got):
             ctx.violation(f"{head}|raises:{got.type}", {**_base_detail(case, pts[0]), **got.brief()})
         else:
